@@ -1,34 +1,111 @@
-"""C20 — array objects keep their invariants under resize / write / copy and writes through mutable views."""
-import itertools, re
+"""C20 — array objects keep their invariants under resize / write / copy / cast and writes through mutable views."""
+import itertools, json, os, re
 from runner import Case
 from shapes import shapes, prod, fmt, all_idx
 
 ID = 'C20'
 LEVEL = 'proof'
-RULE = ('operation sequences over {resize(shape), fill, write(index,v), copy} of length <= L on 12 array kinds (ndarray_t with dynamic / fixed / '
+RULE = ('(1) operation sequences over {resize(shape), fill, write(index,v), copy} of length <= L on 12 array kinds (ndarray_t with dynamic / fixed / '
         'bounded shape and buffer, row and column major, hybrid_ndarray, dynamic_ndarray): every sequence of resize targets drawn from rank 1..3 '
-        'shapes incl. dimension-changing and over-capacity ones (exhaustive over a fixed target set for length <= 3, random longer); after every '
-        'step shape/strides/element count/contents are compared with the Lean state machine and checked against the invariants directly; '
-        'mutable views: every index of every small shape. non-trivial = sequence contains a refused resize or a dimension change or a write')
+        'shapes incl. dimension-changing and over-capacity ones (exhaustive over a fixed target set for length <= 3, random longer); '
+        '(2) extended sequences of <= 6 operations over {resize, write, copy, probe, cast(kind), cast(dtype)} on 14 kinds (the 12 plus two clipped-shape '
+        'kinds) held in a variant so that the KIND changes with a cast: every castable (source kind, destination kind) pair x 4 shapes, every '
+        '(kind, element type) pair, random longer sequences incl. casts the destination refuses; (3) cast(a, kind) for all 18 kind tags from 5 '
+        'compile-time-shaped sources; after every step shape / strides() / addressing strides / element count / contents are compared with the Lean '
+        'state machine and checked against the invariants and cast preservation directly; '
+        '(4) mutable views: for every source shape (rank 1..3, extents 1..E) in both layouts, every view in scope (ref, flatten, every same-size '
+        'reshape target, slices: rank 1 every start/stop in [-n-1, n+1] or None x every step in {None, +-1, +-2, +-3}, integers, ellipsis; rank 2..3 '
+        'products of an entry pool incl. negative steps, sampled) and EVERY destination index: a marker is written through the view on the real code '
+        'and the WHOLE source buffer compared with the model and with NumPy. non-trivial = sequence contains a refused resize or a dimension change, '
+        'a write or a cast; a view with at least one destination index')
 EXHAUSTIVE = {'quick': False, 'thorough': False}
 ANCHORS = {'NmVerif.NDObj.resize/accepts': 'array::ndarray_t::resize (ndarray.hpp), hybrid_ndarray::resize, dynamic_ndarray::resize',
            'NmVerif.NDObj.write/read?': 'base_ndarray_t::operator()', 'NmVerif.NDObj.init': 'ndarray_t() default constructor',
-           'Driver.C20 mview': 'view::mutable_reshape / mutable_flatten / mutable_ref'}
+           'NmVerif.NDObj.castInto/castStep': 'nmtools::cast<dst_t>(a), cast(a, as_value<dst_t>), detail::cast_impl (utility/cast.hpp)',
+           'NmVerif.NDObj.kindCfg': 'meta::resolve_optype<void, cast_kind_t, src_t, kind_t> (utility/cast.hpp, array/ndarray/ndarray.hpp)',
+           'NmVerif.NDObj.convTo': 'static_cast<element_t> in detail::cast_impl',
+           'St.strides (astrides=)': 'row_major_offset_t / column_major_offset_t::strides_ (base_ndarray.hpp)',
+           'Driver.C20 mview / mviewall': 'view::mutable_reshape / mutable_flatten / mutable_ref / mutable_slice / apply_mutable_slice, mutable_indexing_t::operator()',
+           'NmVerif.reshapeView / flattenView / Slice.sliceView / Slice.dynamicSliceView': 'view::reshaper / view::slicer indexers'}
 MANIFEST = dict(
-    text='Proof: the class invariant (element count = product of shape, strides match shape and layout, kind constraints) holds in EVERY reachable state of the array-object state machine (induction over arbitrary operation sequences), a refused resize leaves the state unchanged, an accepted one installs exactly the request and keeps the buffer prefix, distinct indices address distinct in-buffer cells, a write (also through a mutable indexing view) changes exactly the addressed element. The state machine is tied to ndarray_t / hybrid_ndarray / dynamic_ndarray by step-by-step differential runs of operation sequences on 12 kinds, plus direct invariant checks on the real objects.',
-    note='Lean kernel + propext/Classical.choice/Quot.sound. The 15 shape-x-buffer kinds are abstracted to (shape kind, buffer kind, layout); constant-shape kinds have no resize; cast(kind)/cast(dtype) and mutable_slice are covered by correspondence of C09/C05 material only (listed under partial). Contents of cells created by a growing resize are unspecified by the property and not compared.',
-    technique='Lean 4 invariant induction over operation histories + differential correspondence of operation sequences')
+    text='Proof: the class invariant (element count = product of shape, addressing strides match shape and layout for row- AND column-major arrays, kind constraints) holds in EVERY reachable state of the array-object state machine (induction over arbitrary operation sequences, also with casts that change the kind), a refused resize leaves the state unchanged, an accepted one installs exactly the request and keeps the buffer prefix, distinct indices address distinct in-buffer cells; cast to any kind/layout that can take the shape and cast to another element type preserve shape and every (converted) LOGICAL element, all 18 kind tags always fit; a write through mutable_ref / mutable_reshape / mutable_flatten / mutable_slice (every Python-valid index, negative steps included) changes exactly the designated source element and buffer cell. The model is tied to ndarray_t / hybrid_ndarray / dynamic_ndarray / cast / the mutable views by step-by-step differential runs, plus direct invariant, cast-preservation and NumPy checks on the real objects.',
+    note='Lean kernel + propext/Classical.choice/Quot.sound. The 15 shape-x-buffer kinds are abstracted to (shape kind, buffer kind, layout). Contents of cells created by a growing resize are unspecified by the property and not compared. strides() of column-major arrays, casts into a kind that refuses the shape and the default state of clipped-shape/fixed-buffer arrays are known findings.',
+    technique='Lean 4 invariant induction over operation histories + differential correspondence of operation sequences, casts and view writes')
 ASSUMPTIONS = ['cells created by a growing resize are not compared (std::vector zero-fills, static_vector keeps stale values)',
-               'fixed_ndarray has no resize; its addressing is C01']
-PARTIAL = ['cast(kind) / cast(dtype) preservation: not modelled in Lean (C09 kind matrix compares values across kinds)',
-           'mutable_slice write-through: covered by mutable_view_write_exact only under the C05 in-bounds theorem; no separate correspondence run here']
+               'fixed_ndarray has no resize; its addressing is C01',
+               'element values stay inside int32; element types exercised for cast(dtype): int8, uint8, int16, int64, double (g++ modular conversion)',
+               'cast<T> does not compile for static_vector buffers and cast to hybrid_ndarray<T,8,2> only from sources whose shape has compile-time length 2: those pairs are not callable',
+               'the default state of hybrid_ndarray / dynamic_ndarray is not modelled (their sequences start with an accepted resize or a cast)']
+PARTIAL = []
 
 KINDS = ['dd', 'ddc', 'fd6', 'fd6c', 'df2', 'df3c', 'bb', 'db3', 'b8d', 'ff', 'hyb', 'dyn']
-COLMAJOR = {'ddc', 'fd6c', 'df3c'}
+COLMAJOR = {'ddc', 'fd6c', 'df3c', 'lfc'}
+
+# ---- python description of the kinds (independent of the Lean model): used to GENERATE meaningful sequences and to
+# classify known findings; (shape kind, buffer kind)
+XKINDS = KINDS + ['lf', 'lfc']
+SPEC = {'dd': (('dyn',), ('dyn',)), 'ddc': (('dyn',), ('dyn',)), 'fd6': (('dyn',), ('fixed', 6)), 'fd6c': (('dyn',), ('fixed', 6)),
+        'df2': (('dim', 2), ('dyn',)), 'df3c': (('dim', 3), ('dyn',)), 'bb': (('maxdim', 3), ('cap', 8)), 'db3': (('maxdim', 3), ('dyn',)),
+        'b8d': (('dyn',), ('cap', 8)), 'ff': (('dim', 2), ('fixed', 6)), 'hyb': (('dim', 2), ('cap', 8)), 'dyn': (('dyn',), ('dyn',)),
+        'lf': (('clip', (2, 3)), ('fixed', 6)), 'lfc': (('clip', (2, 3)), ('fixed', 6))}
+GROUP = {'dd': 0, 'fd6c': 0, 'bb': 0, 'lf': 0, 'ddc': 1, 'df2': 1, 'hyb': 1,
+         'fd6': 2, 'db3': 2, 'ff': 2, 'lfc': 2, 'df3c': 3, 'b8d': 3, 'dyn': 3}       # which TU serves a cast target
+DTYPES = {'i8': 0, 'f64': 1, 'i64': 1, 'u8': 2, 'i16': 3}
+LEN2 = {'df2', 'ff', 'hyb', 'lf', 'lfc'}          # shape type of compile-time length 2: the only sources castable to hyb
+NO_DCAST = {'bb', 'b8d'}                          # cast<T> does not compile for static_vector buffers
+# destinations never asked to take a shape they refuse: the default state of hybrid_ndarray is not modelled; a refused cast
+# into a clipped-shape kind unwraps the Nothing that mutable_flatten returns for the inconsistent default state (assert /
+# undefined behaviour, replayed: part of the class of C20.cast-refused-resize)
+NO_REFUSED = {'hyb', 'lf', 'lfc'}
+
+
+def default_shape(kind):
+    sk, bk = SPEC[kind]
+    n = bk[1] if bk[0] == 'fixed' else 1
+    if sk[0] == 'dim':
+        return [1] * (sk[1] - 1) + [n]
+    if sk[0] == 'clip':
+        return [1] * (len(sk[1]) - 1) + [min(n, sk[1][-1])]
+    return [n]
+
+
+def accepts(kind, cur_shape, new):
+    """does resize(new) succeed on an array of this kind whose shape is cur_shape (ndarray.hpp:61-147, hybrid.hpp:198)"""
+    sk, bk = SPEC[kind]
+    if sk[0] == 'dim' and len(new) != sk[1]:
+        return False
+    if sk[0] == 'maxdim' and len(new) > sk[1]:
+        return False
+    if sk[0] == 'clip' and (len(new) != len(sk[1]) or any(a > b for a, b in zip(new, sk[1]))):
+        return False
+    if bk[0] == 'fixed' and prod(new) != bk[1]:
+        return False
+    if bk[0] == 'cap' and prod(new) > bk[1]:
+        return False
+    return True
+
+
+def cast_fits(kind, shape):
+    return accepts(kind, default_shape(kind), shape)
+
+
+def castable(src, dst):
+    return dst != 'hyb' or src in LEN2
 
 
 def harness_specs(tier):
-    sp = [dict(name='h_c20', src='h_c20.cpp', flavour='fast'), dict(name='h_c20_san', src='h_c20.cpp', flavour='san-dbg')]
+    # -g0: the sanitizer flavour without debug info (halves the build time; crash kinds are read from the report text)
+    sp = [dict(name='h_c20_san', src='h_c20.cpp', flavour='san-dbg', extra=['-g0']), dict(name='h_c20', src='h_c20.cpp', flavour='fast')]
+    for g in range(4):
+        sp.append(dict(name='h_c20c%d_san' % g, src='h_c20c.cpp', flavour='san-dbg', extra=['-DC20_GROUP=%d' % g, '-g0']))
+    for g in range(4):
+        sp.append(dict(name='h_c20c%d' % g, src='h_c20c.cpp', flavour='fast', extra=['-DC20_GROUP=%d' % g]))
+    for l in (0, 1):
+        sp.append(dict(name='h_c20m%d_san' % l, src='h_c20m.cpp', flavour='san-dbg', extra=['-DC20_LAY=%d' % l, '-g0']))
+        sp.append(dict(name='h_c20k%d_san' % l, src='h_c20k.cpp', flavour='san-dbg', extra=['-DC20_KSRC=%d' % l, '-g0']))
+    for l in (0, 1):
+        sp.append(dict(name='h_c20m%d' % l, src='h_c20m.cpp', flavour='fast', extra=['-DC20_LAY=%d' % l]))
+        sp.append(dict(name='h_c20k%d' % l, src='h_c20k.cpp', flavour='fast', extra=['-DC20_KSRC=%d' % l]))
     return sp
 
 
@@ -40,6 +117,11 @@ def col_strides(s):
 
 def row_strides(s):
     return [prod(s[k + 1:]) for k in range(len(s))]
+
+
+def lay_strides(kind_or_cm, s):
+    cm = kind_or_cm if isinstance(kind_or_cm, bool) else (kind_or_cm in COLMAJOR)
+    return col_strides(s) if cm else row_strides(s)
 
 
 def mk(kind, ops, h, tags=()):
@@ -54,7 +136,7 @@ def idx_of(s, k):
     return out[::-1]
 
 
-def gen(tier, rng):
+def gen_classic(tier, rng):
     targets = [[6], [2, 3], [3, 2], [1, 6], [2, 2], [4, 2], [2, 2, 2], [3, 3], [1, 2, 3], [8], [2], [3, 1, 2], [9], [1, 1]]
     hs = ['h_c20', 'h_c20_san']
     L = 3 if tier == 'quick' else 4
@@ -116,18 +198,392 @@ def gen(tier, rng):
                            oracle='ok data=' + fmt([(-7 if j == k else j) for j in range(N)]))
 
 
-SEG = re.compile(r'r=(\d) shape=(\S+) strides=(\S+) n=(\d+) data=(\S+)')
+
+# ---- (2) extended sequences: the kind changes with a cast ---------------------------------------------------------
+
+XTARGETS = [[6], [2, 3], [3, 2], [1, 6], [2, 2], [4, 2], [2, 2, 2], [3, 3], [1, 2, 3], [8], [2], [3, 1, 2], [1, 1], [1, 3], [2, 1]]
+
+
+def kinds_along(kind, ops):
+    out = []
+    for op in ops:
+        if op.startswith('cast:'):
+            kind = op.split(':')[1]
+        out.append(kind)
+    return out
+
+
+def clipped_colmajor_state(kind, shape):
+    """input class of C20.clipped-colmajor-strides: column-major array with a clipped shape whose column-major strides
+    are not all <= 1 (with the (2,3) maxima and 6 cells of kind lfc: exactly the shape (2,3))"""
+    return kind == 'lfc' and any(x > 1 for x in col_strides(shape))
+
+
+def make_cmp(kind, ops):
+    """IMPL vs MODEL for a sequence: string equality — except that from the first step in the clipped column-major
+    state on (known finding C20.clipped-colmajor-strides; the MODEL follows the repaired code) only result, shape,
+    strides() and element count are compared; post() judges the rest"""
+    ks = kinds_along(kind, ops)
+
+    def cmp(a, b):
+        if a == b:
+            return True
+        if not (a.startswith('ok ') and b.startswith('ok ')):
+            return False
+        sa, sb = a[3:].split(' | '), b[3:].split(' | ')
+        if len(sa) != len(sb) or len(sa) != len(ks):
+            return False
+        tainted = False
+        for k, x, y in zip(ks, sa, sb):
+            mx, my = SEG.match(x), SEG.match(y)
+            if not mx or not my:
+                return False
+            if clipped_colmajor_state(k, parse_list(mx.group(2))) or clipped_colmajor_state(k, parse_list(my.group(2))):
+                tainted = True
+            if tainted:
+                if mx.group(1, 2, 3, 4) != my.group(1, 2, 3, 4):
+                    return False
+            elif x != y:
+                return False
+        return tainted
+    return cmp
+
+
+def mkx(kind, ops, group, n, tags=()):
+    h = 'h_c20c%d%s' % (group, '_san' if n % 2 else '')
+    lfc = 'lfc' in kinds_along(kind, ops)
+    return Case('ndobj kind=%s x=1 ops=%s' % (kind, ';'.join(ops)), h, nontrivial=True, tags=['ndobjx', 'kind=' + kind] + list(tags),
+                cmp=make_cmp(kind, ops) if lfc else None)
+
+
+def gen_x(tier, rng):
+    n = 0
+    shapes4 = [[2, 3], [6], [2, 2, 2], [3, 2]]
+    # every castable (source, destination) pair x 4 shapes (accepted or refused by either side)
+    for src in XKINDS:
+        for dst in XKINDS:
+            if not castable(src, dst):
+                continue
+            for sh in shapes4:
+                if not accepts(src, default_shape(src), sh):
+                    continue
+                if dst in NO_REFUSED and not cast_fits(dst, sh):
+                    continue          # see NO_REFUSED
+                n += 1
+                tags = ['cast-pair', 'cast-fits' if cast_fits(dst, sh) else 'cast-refused']
+                yield mkx(src, ['resize:' + fmt(sh), 'fill:%d' % (100 + 7 * n % 50), 'cast:' + dst, 'probe'], GROUP[dst], n, tags)
+    # every (kind, element type) pair; values around the wrap points of int8 / uint8 / int16
+    for k in XKINDS:
+        if k in NO_DCAST:
+            continue
+        for t, g in DTYPES.items():
+            for sh, base in [([2, 3], 125), ([3, 2], -130), ([6], 32765), ([2, 3], 253), ([2, 3], -32770), ([1, 2, 3], 126), ([2, 3], 70000)]:
+                if not accepts(k, default_shape(k), sh):
+                    continue
+                n += 1
+                yield mkx(k, ['resize:' + fmt(sh), 'fill:%d' % base, 'dcast:' + t, 'copy'], g, n, ['dcast', 'dtype=' + t])
+    # random sequences of <= 6 operations (fills after a resize are not counted)
+    count = 1500 if tier == 'quick' else 30000
+    for _ in range(count):
+        g = rng.randint(0, 3)
+        kind = rng.choice(XKINDS)
+        start = kind
+        shape = default_shape(kind)
+        ops, tags = [], set()
+        L = rng.randint(2, 6)
+        fresh = kind in ('hyb', 'dyn')       # legacy default state not modelled: first an accepted resize
+        for j in range(L):
+            r = rng.random()
+            if fresh or r < 0.30:
+                cand = [t for t in XTARGETS if accepts(kind, shape, t)] if (fresh or rng.random() < 0.7) else XTARGETS
+                t = rng.choice(cand)
+                ops += ['resize:' + fmt(t), 'fill:%d' % rng.choice([1, 50, 120, 250, 300, 32760, -140])]
+                if accepts(kind, shape, t):
+                    if len(t) != len(shape):
+                        tags.add('dim-change')
+                    shape = t
+                else:
+                    tags.add('resize-refused')
+                fresh = False
+            elif r < 0.45:
+                ops.append('write:%s:%d' % (fmt(idx_of(shape, rng.randrange(prod(shape)))), rng.choice([99, -3, 1000])))
+                tags.add('write')
+            elif r < 0.55:
+                ops.append('copy')
+            elif r < 0.62:
+                ops.append('probe')
+            elif kind in ('lf', 'lfc') and prod(shape) != 6:
+                # the inconsistent default state of the clipped kinds (C20.clipped-default-shape) cannot be cast: flatten()
+                # of it is Nothing and cast unwraps it (assertion / undefined behaviour, replayed)
+                ops.append('copy')
+            elif r < 0.88:
+                cand = [d for d in XKINDS if GROUP[d] == g and castable(kind, d)]
+                fit = [d for d in cand if cast_fits(d, shape)]
+                if fit and rng.random() < 0.85:
+                    d = rng.choice(fit)
+                else:
+                    cand = [d for d in cand if d not in NO_REFUSED or cast_fits(d, shape)]
+                    d = rng.choice(cand)
+                ops.append('cast:' + d)
+                if cast_fits(d, shape):
+                    tags.add('cast')
+                else:
+                    tags.add('cast-refused'); shape = default_shape(d)
+                if (d in COLMAJOR) != (kind in COLMAJOR):
+                    tags.add('cast-layout-change')
+                kind = d
+            else:
+                ts = [t for t, tg in DTYPES.items() if tg == g]
+                if kind in NO_DCAST:
+                    ops.append('copy')
+                else:
+                    ops.append('dcast:' + rng.choice(ts)); tags.add('dcast')
+        n += 1
+        yield mkx(start, ops, g, n, sorted(tags) + ['random', 'len=%d' % L])
+
+
+# ---- (3) cast(a, kind) ---------------------------------------------------------------------------------------------
+
+KTAGS = ['fixed', 'hybrid', 'dynamic'] + [a + '_' + b for a in 'cfhdl' for b in 'fhd']
+KSOURCES = [('fx', [4]), ('fx', [2, 3]), ('cf', [2, 3]), ('cfc', [3, 2]), ('cfc', [2, 1, 3])]
+
+
+def gen_kind(tier, rng):
+    import numpy as np
+    n = 0
+    for src, sh in KSOURCES:
+        for t in KTAGS:
+            for base in (0, 300) if tier == 'quick' else (0, 300, -7, 1000):
+                N = prod(sh)
+                logical = np.arange(base, base + N).reshape(sh, order='F' if src == 'cfc' else 'C')
+                want = 'ok shape=%s strides=%s astrides=%s n=%d data=%s' % (fmt(sh), fmt(row_strides(sh)), fmt(row_strides(sh)), N,
+                                                                           fmt(logical.flatten(order='C')))
+                n += 1
+                yield Case('castkind src=%s shape=%s tag=%s base=%d' % (src, fmt(sh), t, base), 'h_c20k%d' % (src == 'cfc') + ('_san' if n % 2 else ''),
+                           oracle=want, tags=['castkind', 'tag=' + t, 'src=' + src])
+
+
+# ---- (4) mutable views: every destination index of every view in scope ---------------------------------------------
+
+def fmt_part(v):
+    return 'N' if v is None else str(v)
+
+
+def entry_str(e):
+    if e == 'e':
+        return 'e'
+    if isinstance(e, int):
+        return 'i%d' % e
+    return ':'.join(fmt_part(v) for v in e)
+
+
+def entry_py(e):
+    if e == 'e':
+        return Ellipsis
+    if isinstance(e, int):
+        return e
+    return slice(*e) if len(e) == 3 else slice(e[0], e[1])
+
+
+def none_pattern(e):
+    """None-pattern of a range entry (None for integers / ellipsis); all-int triples have pattern 'A'"""
+    if e == 'e' or isinstance(e, int):
+        return None
+    pat = (len(e),) + tuple(v is None for v in e)
+    return 'A' if pat == (3, False, False, False) else pat
+
+
+def encodings(es):
+    """encodings of the C++ API that can express this index (as in the C05 harness)"""
+    pats = {none_pattern(e) for e in es} - {None}
+    enc = []
+    if pats <= {'A'}:
+        enc += ['dynA', 'dynP']
+    elif len(pats - {'A'}) == 1:
+        enc.append('dynP')
+    if len(es) == 1:
+        enc.append('packed')
+    elif len(es) == 2 and all(none_pattern(e) in (None, 'A', (3, True, True, False)) for e in es):
+        enc.append('packed')
+    return enc
+
+
+def mview_oracle(s, cm, view):
+    """NumPy: `view` maps the array of logical ranks to the destination; None = NumPy rejects the view"""
+    import numpy as np
+    N = prod(s)
+    ranks = np.arange(N).reshape(s)
+    try:
+        v = np.asarray(view(ranks))
+    except (ValueError, IndexError):
+        return None
+    st = lay_strides(cm, s)
+    bufs = []
+    for d in np.ndindex(*v.shape):
+        r = int(v[d])
+        off = sum(a * b for a, b in zip(idx_of(s, r), st))
+        bufs.append(fmt([(-7 if k == off else k) for k in range(N)]))
+    return 'ok shape=%s bufs=%s' % (fmt(v.shape), ';'.join(bufs) if bufs else '[]')
+
+
+def gen_mviewall(tier, rng):
+    n = 0
+    E = 3 if tier == 'quick' else 4
+
+    def case(req, oracle, tags, nontrivial=True):
+        nonlocal n
+        n += 1
+        h = 'h_c20m%d%s' % (1 if ' lay=c ' in req else 0, '_san' if n % 2 else '')
+        return Case(req, h, oracle=oracle, tags=['mviewall'] + tags, nontrivial=nontrivial)
+
+    all_shapes = list(shapes(3, E, min_rank=1))
+    for s in all_shapes:
+        for lay in 'rc':
+            cm = lay == 'c'
+            base = 'lay=%s shape=%s' % (lay, fmt(s))
+            yield case('mviewall kind=ref %s v=-7' % base, mview_oracle(s, cm, lambda a: a), ['ref', 'lay=' + lay])
+            yield case('mviewall kind=flatten %s v=-7' % base, mview_oracle(s, cm, lambda a: a.reshape(-1)), ['flatten', 'lay=' + lay])
+            for to in all_shapes:
+                if prod(to) != prod(s) or to == s:
+                    continue
+                yield case('mviewall kind=reshape %s to=%s v=-7' % (base, fmt(to)), mview_oracle(s, cm, lambda a: a.reshape(to)), ['reshape', 'lay=' + lay])
+                if len(to) >= 2 and (n % 3 == 0):
+                    k = n % len(to)
+                    to1 = to[:k] + [-1] + to[k + 1:]
+                    yield case('mviewall kind=reshape %s to=%s v=-7' % (base, fmt(to1)), mview_oracle(s, cm, lambda a: a.reshape(to1)), ['reshape', 'reshape-infer', 'lay=' + lay])
+    # slices, rank 1: every start / stop in [-n-1, n+1] or None, every step in {None, +-1, +-2, +-3}; integers; ellipsis
+    for nn in range(1, E + 1):
+        bounds = [None] + list(range(-nn - 1, nn + 2))
+        for lay in 'rc':
+            base = 'lay=%s shape=%d' % (lay, nn)
+            singles = [(a, b, c) for a in bounds for b in bounds for c in (None, 1, -1, 2, -2, 3, -3)]
+            singles += [(a, b) for a in bounds for b in bounds if (a is None or b is None or (a + b) % 3 == 0)]
+            singles += list(range(-nn, nn)) + ['e']
+            for e in singles:
+                es = [e]
+                encs = encodings(es)
+                enc = encs[n % len(encs)]
+                o = mview_oracle([nn], lay == 'c', lambda a: a[entry_py(e)])
+                # an integer on a rank-1 source gives a rank-0 view: one destination index, the empty one
+                yield case('mviewall kind=slice %s sl=%s enc=%s v=-7' % (base, entry_str(e), enc), o, ['slice', 'rank1', 'enc=' + enc, 'lay=' + lay]
+                           + (['neg-step'] if (not isinstance(e, int) and e != 'e' and len(e) == 3 and e[2] is not None and e[2] < 0) else []))
+    # slices, rank 2..3: products of an entry pool, sampled
+    def pool(nn, pat):
+        """range entries for an axis of extent nn: all-int triples and entries with the request's None-pattern"""
+        ints = [(0, nn, 1), (nn - 1, -nn - 1, -1), (1, nn, 2), (nn, 0, -2), (-1, 0, -1), (0, nn + 1, 1), (1, 1, 1), (-nn - 1, nn, 3), (nn - 1, 0, -1)]
+        out = list(ints)
+        if pat is not None:
+            vals = [0, 1, -1, nn, -nn, nn - 1, 2, -2]
+            for _ in range(6):
+                e = tuple(None if isnone else rng.choice(vals if k < 2 else [1, -1, 2, -2, 3, -3]) for k, isnone in enumerate(pat[1:]))
+                if len(e) == 3 and e[2] == 0:
+                    continue
+                out.append(e)
+        return out
+    pats = [None] + [(3,) + m for m in itertools.product([False, True], repeat=3) if any(m)] + [(2,) + m for m in itertools.product([False, True], repeat=2)]
+    per = {2: (40 if tier == 'quick' else 200), 3: (14 if tier == 'quick' else 100)}
+    for s in all_shapes:
+        if len(s) < 2:
+            continue
+        for lay in 'rc':
+            seen = set()
+            for _ in range(per[len(s)]):
+                pat = rng.choice(pats)
+                k = rng.randint(1, len(s))
+                es, ax, ell = [], 0, False
+                while ax < len(s) and len(es) < k + (1 if ell else 0):
+                    r = rng.random()
+                    if r < 0.15 and not ell:
+                        ell = True; es.append('e')
+                        ax += rng.randint(0, len(s) - ax - (k - len(es) + 1)) if (len(s) - ax - (k - len(es) + 1)) > 0 else 0
+                        continue
+                    if r < 0.35:
+                        es.append(rng.randrange(-s[ax], s[ax]))
+                    else:
+                        es.append(rng.choice(pool(s[ax], pat)))
+                    ax += 1
+                encs = encodings(es)
+                if not encs:
+                    continue
+                key = tuple(entry_str(e) for e in es)
+                if key in seen:
+                    continue
+                seen.add(key)
+                enc = encs[n % len(encs)]
+                idx = tuple(entry_py(e) for e in es)
+                o = mview_oracle(s, lay == 'c', lambda a: a[idx])
+                if o is None:
+                    continue
+                neg = any((not isinstance(e, int)) and e != 'e' and len(e) == 3 and e[2] is not None and e[2] < 0 for e in es)
+                yield case('mviewall kind=slice lay=%s shape=%s sl=%s enc=%s v=-7' % (lay, fmt(s), ';'.join(key), enc), o,
+                           ['slice', 'rank%d' % len(s), 'enc=' + enc, 'lay=' + lay] + (['neg-step'] if neg else []) + (['ellipsis'] if ell else []),
+                           nontrivial=' bufs=[]' not in o)
+
+
+def gen(tier, rng):
+    yield from gen_classic(tier, rng)
+    yield from gen_x(tier, rng)
+    yield from gen_kind(tier, rng)
+    yield from gen_mviewall(tier, rng)
+
+
+SEG = re.compile(r'r=(\d) shape=(\S+) strides=(\S+) n=(\d+) data=(\S+)(?: astrides=(\S+))?(?: via=(\S+))?')
 
 
 def parse_list(s):
     return [] if s == '[]' else [int(x) for x in s.split(',')]
 
 
-def post(cases, tier):
-    """direct invariant checks on the IMPL answers (independent of the Lean model)"""
+def wrap_signed(v, bits):
+    return (v + (1 << (bits - 1))) % (1 << bits) - (1 << (bits - 1))
+
+
+CONV = {'i8': lambda v: wrap_signed(v, 8), 'u8': lambda v: v % 256, 'i16': lambda v: wrap_signed(v, 16), 'i64': lambda v: v, 'f64': lambda v: v}
+
+
+def logical(data, shape, kind):
+    """row-major list of the logical elements of a buffer under the layout of `kind`"""
+    st = lay_strides(kind, shape)
+    return [data[sum(a * b for a, b in zip(i, st))] for i in all_idx(shape)]
+
+
+def own_known(predicate):
+    """open known findings of this property (the fragment known/C20.json is the source of known_findings.json)"""
     import runner
+    out = [e for e in runner.load_known(ID) if e.get('predicate') == predicate]
+    if not out:
+        frag = os.path.join(os.path.dirname(os.path.dirname(os.path.dirname(os.path.abspath(__file__)))), 'known', 'C20.json')
+        if os.path.exists(frag):
+            out = [e for e in json.load(open(frag)) if e.get('predicate') == predicate and e.get('status', 'open') == 'open']
+    return out
+
+
+# input classes of the known findings (decided from the request alone; `at` = position of the operation)
+def colmajor_reported_strides(kind, shape):
+    return kind in COLMAJOR and len(shape) >= 2 and row_strides(shape) != col_strides(shape)
+
+
+def cast_refused_kind(dst, src_shape):
+    return not cast_fits(dst, src_shape)
+
+
+def clipped_default_state(kind, default_derived):
+    return kind in ('lf', 'lfc') and default_derived
+
+
+KNOWN_PREDICATES = {}     # all three classes are decided inside post() (they need the position inside the sequence)
+
+
+def post(cases, tier):
+    """direct checks on the IMPL answers (independent of the Lean model): class invariant after every step, refused
+    resize leaves everything unchanged, cast / dcast preserve shape and (converted) logical values"""
     bad = []
-    colmajor_stride_mismatch = []
+    hits = {'colmajor_reported_strides': [], 'cast_refused_kind': [], 'clipped_default_state': [], 'clipped_colmajor_state': []}
+
+    def hit(pred, c):
+        if not hits[pred] or hits[pred][-1] is not c:
+            hits[pred].append(c)
+
     for c in cases:
         if not c.req.startswith('ndobj') or not (c.impl or '').startswith('ok '):
             continue
@@ -135,20 +591,39 @@ def post(cases, tier):
         ops = re.search(r'ops=(\S+)', c.req).group(1).split(';')
         segs = c.impl[3:].split(' | ')
         prev = None
+        default_derived = True         # no accepted resize / fitting cast since the (default) construction
+        tainted = False                # the sequence has been in the clipped column-major state (aliased cells)
         for op, seg in zip(ops, segs):
             m = SEG.match(seg)
             if not m:
                 bad.append((c, 'unparsable segment ' + seg)); break
             r, shape, strides, n, data = int(m.group(1)), parse_list(m.group(2)), parse_list(m.group(3)), int(m.group(4)), parse_list(m.group(5))
+            astrides = parse_list(m.group(6)) if m.group(6) else None
+            src_kind = kind
+            refused_cast = False
+            if op.startswith('cast:'):
+                kind = op.split(':')[1]
+                refused_cast = prev is not None and cast_refused_kind(kind, prev[0])
+                default_derived = refused_cast
+            if op.startswith('resize:') and r == 1:
+                default_derived = False
             if n != prod(shape):
-                bad.append((c, 'element count %d != product of shape %s after %s' % (n, shape, op)))
-            want = col_strides(shape) if kind in COLMAJOR else row_strides(shape)
+                if clipped_default_state(kind, default_derived):
+                    hit('clipped_default_state', c)
+                else:
+                    bad.append((c, 'element count %d != product of shape %s after %s' % (n, shape, op)))
+            want = lay_strides(kind, shape)
             if strides != want:
-                if kind in COLMAJOR and strides == row_strides(shape):
-                    if not colmajor_stride_mismatch or colmajor_stride_mismatch[-1] is not c:
-                        colmajor_stride_mismatch.append(c)
+                if colmajor_reported_strides(kind, shape) and strides == row_strides(shape):
+                    hit('colmajor_reported_strides', c)
                 else:
                     bad.append((c, 'strides %s do not match shape %s / layout after %s' % (strides, shape, op)))
+            if astrides is not None and astrides != want:
+                if clipped_colmajor_state(kind, shape) and astrides == [min(x, 1) for x in want]:
+                    hit('clipped_colmajor_state', c)
+                    tainted = True         # cells alias from here on: values are judged by this finding
+                else:
+                    bad.append((c, 'addressing strides %s do not match shape %s / layout of kind %s after %s' % (astrides, shape, kind, op)))
             if op.startswith('resize:'):
                 req = parse_list(op.split(':')[1])
                 if r == 1 and shape != req:
@@ -158,19 +633,40 @@ def post(cases, tier):
                 if r == 0 and prev is not None and prev[3] is not None and data != prev[3]:
                     bad.append((c, 'refused resize to %s changed the contents' % req))
             full = data if len(data) == n else None
+            if op.startswith('cast:') and prev is not None and prev[3] is not None:
+                ok = shape == prev[0] and full is not None and n == prod(shape) and \
+                    logical(full, shape, kind) == logical(prev[3], prev[0], src_kind)
+                if not ok:
+                    if tainted:
+                        hit('clipped_colmajor_state', c)
+                    elif refused_cast:
+                        hit('cast_refused_kind', c)
+                    else:
+                        bad.append((c, 'cast %s -> %s does not preserve shape / logical values: %s %s -> %s %s' % (src_kind, kind, prev[0], prev[3], shape, data)))
+            if op.startswith('dcast:') and prev is not None and prev[3] is not None:
+                f = CONV[op.split(':')[1]]
+                via = (m.group(7) or '').split('/')
+                ok = shape == prev[0] and full == [f(v) for v in prev[3]] and len(via) == 4 and parse_list(via[0]) == shape and \
+                    parse_list(via[3]) == full and parse_list(via[2]) == (astrides if astrides is not None else parse_list(via[2]))
+                if not ok and tainted:
+                    hit('clipped_colmajor_state', c)
+                elif not ok and not (n != prod(shape) and clipped_default_state(kind, default_derived)):
+                    bad.append((c, 'cast to element type %s does not preserve shape / converted values: %s %s -> %s %s (%s)' % (op, prev[0], prev[3], shape, data, m.group(7))))
             prev = (shape, strides, n, full)
     out = []
-    known = [e for e in runner.load_known(ID) if e.get('predicate') == 'colmajor_reported_strides']
-    if colmajor_stride_mismatch:
-        c = min(colmajor_stride_mismatch, key=lambda c: len(c.req))
+    for pred, cs in hits.items():
+        if not cs:
+            continue
+        c = min(cs, key=lambda c: (len(c.req), c.req))
+        known = own_known(pred)
         if known:
             print('KNOWN-FINDING: property=C20 id=%s site=%s class="%s" cases=%d e.g. "%s" impl="%s"' % (
-                known[0]['id'], known[0].get('call_site'), known[0].get('class'), len(colmajor_stride_mismatch), c.req, c.impl[:120]))
+                known[0]['id'], known[0].get('call_site'), known[0].get('class'), len(cs), c.req, c.impl[:160]))
         else:
-            out.append(('property-fails', 'strides() of a column-major array does not match its layout: %s -> %s' % (c.req, c.impl[:200]),
-                        {'cases': [{'req': c.req, 'harness': c.harness, 'impl_answer': c.impl}]}, False))
+            out.append(('property-fails', 'the property fails on the input class %s (no open known finding): %s -> %s' % (pred, c.req, c.impl[:300]),
+                        {'cases': [{'req': c.req, 'harness': c.harness, 'impl_answer': c.impl, 'dom': True}]}, False))
     if bad:
-        c, why = min(bad, key=lambda t: len(t[0].req))
+        c, why = min(bad, key=lambda t: (len(t[0].req), t[0].req))
         out.append(('property-fails', 'invariant broken on the real object: %s (%d cases), e.g. %s -> %s' % (why, len(bad), c.req, c.impl[:300]),
                     {'cases': [{'req': b[0].req, 'harness': b[0].harness, 'impl_answer': b[0].impl, 'why': b[1], 'model': b[0].model, 'dom': True} for b in bad[:20]]}, False))
     return out
